@@ -329,7 +329,7 @@ func (p *specParser) primary() Expr {
 		return &EStr{S: s}
 	case tIdent:
 		switch t.s {
-		case "forall", "exists", "sum", "bitor":
+		case "forall", "exists", "sum", "bitor", "cat":
 			v := p.next()
 			if v.k != tIdent {
 				p.fail("expected bound variable")
